@@ -980,6 +980,25 @@ def replay(cond, args):
         ok, err = False, e
     if ok:
         return {'reproduced': False}
+    if f == 'finalize_nested':
+        def build():
+            return build_shape(p['outer'], [build_shape(p['inner'], [j * 10 + i for i in range(vals['inner_len'])])
+                                            for j in range(vals['outer_len'])])
+        try:
+            got = 'returns %r' % (evaluate('$v', engine_with(limitIterators=vals['n'], convertSetsToLists=True,
+                                                              convertTuplesToLists=False), v=build()),)
+        except Exception as e:
+            got = 'raises %s' % type(e).__name__
+        return {'reproduced': True, 'key': 'C08/finalize_nested/%s/%s' % (p['outer'], p['inner']),
+                'what': 'limitIterators=%d: result %s of %s (lengths %d, %d; collections of lengths %r pass the finaliser): %s; '
+                        'expected %s' % (vals['n'], p['outer'], p['inner'], vals['outer_len'], vals['inner_len'],
+                                         sorted(limited_lengths(build())), got,
+                                         'CollectionTooLargeException' if 0 <= vals['n'] < max(limited_lengths(build())) else 'the value')}
+    if f == 'limit_history':
+        return {'reproduced': True, 'key': 'C08/limit_history',
+                'what': 'a context and functions declared with Iterable()/Iterator() used first with limitIterators=%d, then with '
+                        'limitIterators=%d on a %d-element lazy sequence: the second evaluation does not obey its own limit%s'
+                        % (vals['n1'], vals['n2'], vals['length'], ' (%r)' % err if err else '')}
     if f in ('repetition', 'probe_repetition'):
         key = rep_class(vals['q'], vals['right'], vals['length'])
         L = rep_operand_len(vals['length'])
